@@ -3,6 +3,7 @@ Proof: props/C17.v.  Correspondence: IterData on flat integer tables vs the Gall
 to a length, seeded longer ones); direct oracle: a by-name reference of the normal form (also for one nested level), every
 intermediate stream iterated before and after later steps, twice."""
 import itertools
+import copy
 import random
 
 from common import Report, clist, coq_eval_mismatches, cz, proof_phase, use_repo
@@ -237,7 +238,14 @@ def main():
     outer["in"] = inner
     outer["z"] = BaseType("z")
     nrows = [(1, [(10, 11), (20, 21)], 7), (2, [], 8), (3, [(30, 31)], 9)]
-    nd = IterData([(np.int32(a), [(np.int32(x), np.int32(y)) for x, y in b], np.int32(c)) for a, b, c in nrows], outer)
+    # the records of the stream are tuples or lists (a source may hand out either): a derived stream never writes into them
+    def make_nested(mk):
+        o_ = copy.copy(outer)
+        d_ = IterData([mk([np.int32(a), [mk([np.int32(x), np.int32(y)]) for x, y in b], np.int32(c)]) for a, b, c in nrows], o_)
+        o_.data = d_
+        return d_
+    nd = make_nested(tuple)
+    nd_list = make_nested(list)
     outer.data = nd
 
     def plain(v):
@@ -338,7 +346,8 @@ def main():
                 out = out[o[1]:o[1] + 1]
         return out
 
-    def nested_apply(d, o):
+    def nested_apply(d, o, nd=None):
+        nd = nd if nd is not None else globals().get("_unused")
         if o[0] == "ofilt":
             left = nd[o[1]]
             return d[{">": left > o[3], ">=": left >= o[3], "<": left < o[3], "<=": left <= o[3], "=": left == o[3], "!=": left != o[3]}[o[2]]]
@@ -379,9 +388,10 @@ def main():
         nested_stats["chains"] += 1
         r.count(("nested-chain", repr(ch)))
         try:
-            d = nd
+            base_nd = nd_list if nested_stats["chains"] % 2 else nd
+            d = base_nd
             for o in ch:
-                d = nested_apply(d, o)
+                d = nested_apply(d, o, base_nd)
             got, again = plain(list(d)), plain(list(d))
             want = nested_reference(ch)
             niter_cases.append("(%s, %s, %s, (Some %s))" % (NTABLE, NROWS, clist(ch, c_nop), clist(got, c_tree)))
@@ -394,6 +404,9 @@ def main():
     r.extra["nested"] = nested_stats
     try:
         final = plain(list(nd))
+        final_l = plain(list(nd_list))
+        if final_l != final:
+            final = final_l
     except Exception as e:  # noqa
         final = repr(e)
     if final != [[a, [list(t) for t in b], c] for a, b, c in nrows]:
